@@ -157,6 +157,9 @@ subclass) given by its entries in insertion order (keys are text and distinct: a
 inductive NewArg where
   | tuple (items : List PyVal)
   | dict (exact : Bool) (entries : List (String × PyVal))
+  /-- a mapping that is not a `dict` (`UserDict`, `ChainMap`, `MappingProxyType`, any `collections.abc.Mapping`), given by
+  its entries in iteration order -/
+  | mapping (entries : List (String × PyVal))
   deriving Repr
 
 def isDict : NewArg → Bool
@@ -167,9 +170,20 @@ def isExactDict : NewArg → Bool
   | .dict e _ => e
   | _ => false
 
-/-- `dict(data)`: the same entries in an exact dictionary (a tuple of pairs is not modelled: `dict()` of a row) -/
+/-- `isinstance(data, (T₁, T₂, …))` over the type names orso/row.py uses in `Row.__new__`: `dict`, `tuple` / `list` (one
+argument kind here: a sequence of items), `Mapping` (`collections.abc.Mapping`: every `dict` is one, and so is the
+mapping that is not a `dict`). -/
+def isInst (data : NewArg) (types : List String) : Bool :=
+  match data with
+  | .dict _ _ => types.contains "dict" || types.contains "Mapping"
+  | .mapping _ => types.contains "Mapping"
+  | .tuple _ => types.contains "tuple" || types.contains "list"
+
+/-- `dict(data)`: the same entries in an exact dictionary — of a `dict` (subclass) and of any other mapping (a tuple of
+pairs is not modelled: `dict()` of a row) -/
 def dictOf : NewArg → NewArg
   | .dict _ es => .dict true es
+  | .mapping es => .dict true es
   | a => a
 
 /-- `d.get(k)` / `PyDict_GetItem(d, k)`: the value of the (one) entry with that key -/
@@ -188,6 +202,7 @@ def extract_dict_columns (data : NewArg) (fields : Option (List String)) : Excep
 def tupleNew : NewArg → List PyVal
   | .tuple items => items
   | .dict _ es => es.map (fun e => .str e.1)
+  | .mapping es => es.map (fun e => .str e.1)
 
 /-- a call that may raise inside `__new__` -/
 def bindNew (e : Except String NewArg) (k : NewArg → Except String (List PyVal)) : Except String (List PyVal) :=
@@ -195,10 +210,12 @@ def bindNew (e : Except String NewArg) (k : NewArg → Except String (List PyVal
   | .error x => .error x
   | .ok v => k v
 
-/-- orso/row.py:77-96 `Row.__new__` as it is. -/
+/-- orso/row.py `Row.__new__` as it is: a sequence is kept; a dictionary — a `dict`, an instance of a subclass, or a mapping
+that is not a `dict` at all (it is the dictionary it stands for: `dict(data)` first) — is laid out by the fields. -/
 def rowNewModel (fields : Option (List String)) (data : NewArg) : Except String (List PyVal) :=
   match data with
   | .tuple items => .ok items
   | .dict _ es => bindNew (extract_dict_columns (.dict true es) fields) (fun d => .ok (tupleNew d))
+  | .mapping es => bindNew (extract_dict_columns (.dict true es) fields) (fun d => .ok (tupleNew d))
 
 end RowGlue
